@@ -122,7 +122,7 @@ pub open spec fn loaded_all(layout: LayoutMetadata, dir: Seq<char>, out: Map<Str
             && step_files(dir, name@) is Some && loaded_step(step_files(dir, name@)->0, name@, out[name]@)
             && out[name]@.len() >= layout.steps@[i].threshold)
 }
-//@extract src/verifylib.rs fn:load_links_for_layout props=C02,C14
+//@extract src/verifylib.rs fn:load_links_for_layout props=C02,C07,C14
 //@fmt 1
 //@subst D46 /PathBuf::from\(link_dir\)/ => pathbuf_from_str(link_dir)
 //@subst D46 /path_pattern\.push\(pattern\)/ => pathbuf_push_string(&mut path_pattern, pattern)
@@ -133,7 +133,7 @@ pub open spec fn loaded_all(layout: LayoutMetadata, dir: Seq<char>, out: Map<Str
 //@subst G2 /let mut links_per_step = HashMap::new\(\);/ => let mut links_per_step: HashMap<KeyId, Metablock> = HashMap::new();
 //@subst W1 /match_signatures\(\s*link_metablock,\s*signer_short_key_id,\s*&mut links_per_step,\s*\);/ => match_signatures(link_metablock, signer_short_key_id, &mut links_per_step);
 //@contract ret=r
-    ensures r is Ok ==> loaded_all(*layout, link_dir@, r->Ok_0@),   // [C02]
+    ensures r is Ok ==> loaded_all(*layout, link_dir@, r->Ok_0@),   // [C02,C07] (C07: no matched link file is silently left out)
 //@before /let mut steps_links_metadata: /
     proof { fact_string_ext(); fact_keyid_key_model(); }
 //@loop 1 iter=it1
